@@ -971,7 +971,7 @@ def check_inbreeding(chk, ctx, c):
                 chk.fail('from_phi_inbreeding:extrap_x', 'extrap_x %r vs %r' % (res['fs'].extrap_x, grids[0][1]), inp)
             # marginalise a population after sampling = sample the trapezoid-marginalised density (every axis in turn):
             # holds iff the sampling probabilities of the removed population sum to one at every grid point
-            if d >= 2 and mode != 'all-zero':
+            if d >= 2 and mode != 'all-zero' and (c.get('fixed') or c.get('marg')):
                 for a in range(d):
                     if c.get('het') and HETKEYS.index(c['het']) < d:
                         continue
@@ -1184,6 +1184,7 @@ def run(chk, ctx):
         chk.stat('inb:fixed-ploidy-order')
     for it in range(40 if q else 300):
         c = gen_inb_case(rng, tier, mixed_zero=(it % 8 == 3), all_zero=(it % 8 == 5))
+        c['marg'] = (it % 4 == 0)
         check_inbreeding(chk, ctx, c)
     # ploidy guard
     c = gen_inb_case(rng, tier, d=2); c['ns'][0] += 1
